@@ -118,6 +118,11 @@ type serverConn struct {
 
 	closer chan struct{}
 
+	// resetByUs holds the ids of streams this side reset. The peer may have had
+	// frames for them in flight, and those are to be ignored rather than treated
+	// as errors (RFC 7540 5.1). Only the stream loop touches it.
+	resetByUs map[uint32]struct{}
+
 	debug  bool
 	logger fasthttp.Logger
 }
@@ -694,6 +699,16 @@ loop:
 			if strm == nil {
 				// if the stream doesn't exist, create it
 
+				if _, ok := sc.resetByUs[fr.Stream()]; ok {
+					// Sent before the peer saw our RST_STREAM: ignored, except
+					// that DATA has used up connection window all the same.
+					if fr.Type() == FrameData {
+						sc.consumeConnWindow(fr.Len())
+					}
+
+					continue
+				}
+
 				if fr.Type() == FrameResetStream {
 					// only send go away on idle stream not on an already-closed stream
 					if fr.Stream() > sc.lastID {
@@ -893,6 +908,15 @@ func (sc *serverConn) consumeRecvWindow(strm *Stream, fr *FrameHeader, n int) {
 		sc.writeWindowUpdate(strm.ID(), n)
 	}
 
+	sc.consumeConnWindow(n)
+}
+
+// consumeConnWindow is the connection-level half of consumeRecvWindow.
+func (sc *serverConn) consumeConnWindow(n int) {
+	if n <= 0 {
+		return
+	}
+
 	sc.currentWindow -= int32(n)
 	if sc.currentWindow < sc.maxWindow/2 {
 		inc := sc.maxWindow - sc.currentWindow
@@ -924,6 +948,14 @@ func (sc *serverConn) writeReset(strm uint32, code ErrorCode) {
 	r.SetCode(code)
 
 	sc.write(fr)
+
+	// Bounded like closedStrms: a peer that has not caught up is a round trip
+	// behind, not more.
+	if sc.resetByUs == nil || len(sc.resetByUs) >= closedStrmsCap {
+		sc.resetByUs = make(map[uint32]struct{}, closedStrmsCap)
+	}
+
+	sc.resetByUs[strm] = struct{}{}
 
 	if sc.debug {
 		sc.logger.Printf(
